@@ -213,7 +213,9 @@ func (d *decodingReader) decode(f frame.Frame) error {
 		err := d.dec.DecodeValue(v)
 		if err != nil {
 			if err == io.EOF {
-				return EOF
+				// The stream ended inside a batch: this is truncation, not
+				// a graceful end of stream.
+				return io.ErrUnexpectedEOF
 			}
 			return err
 		}
